@@ -18,6 +18,8 @@ CTX = [
 ]
 # an additional context whose custom field holds runs of blanks and a tab (used by C02)
 CTX_WS = {"date": "2025-02-01", "field": {"memo": "two  blanks\tand tab", "type": "Wire  Fast"}, "source": "Amex  Gold"}
+# identical to CTX_WS except for the custom fields
+CTX_WS2 = {"date": "2025-02-01", "field": {"memo": "REF 5 other memo", "type": "ACH"}, "source": "Amex  Gold"}
 AMOUNTS = [-50.0, 100.0, 100.25]
 
 
